@@ -183,6 +183,7 @@ func init() {
 		Explain: "Decides consistency of the iterator family, not its arithmetic: (I1) NextValidity reports !mask[i], NextValid stops on unmasked and NextInvalid on masked elements, in FlatMaskedIterator and MultIterator; (I2) NextValid and NextInvalid of one type are identical up to exactly that polarity; (I3) every path through FlatIterator.Reset rewrites every field the stepping functions mutate (done, nextIndex, track); (I4) the vector fast path addresses track/shape/strides through veclikeDim, which is the first axis of length != 1, and no vector arm uses a literal axis; (I5) the multi-iterator's stride-block key is the digest of all stride elements; (I6) colMajorNDNext is ndNext with loop direction and done-axis reversed. " +
 			"Not decided - and this is the core of the property: that the odometer yields offsets in row-major coordinate order, the skip counts, coordinate tracking values.",
 		Run: func(rc *rules.RC) {
+			rules.I8(rc)
 			rules.I7(rc)
 			rules.I12(rc)
 			rules.I3(rc)
